@@ -295,6 +295,22 @@ func (m *Modem) TxBufferLen() int {
 	return int(atomic.LoadInt64(&m.buffered) * int64(q) / 4)
 }
 
+// FlushOnly wraps an End with transport.Flusher only (no TxBufferLen), like the AX.25/AGWPE connections:
+// Flush blocks for FlushTime (the link layer needs that long to get the queued frames acknowledged).
+type FlushOnly struct {
+	*End
+	FlushTime time.Duration
+	Flushes   int32
+}
+
+func (f *FlushOnly) Flush() error {
+	atomic.AddInt32(&f.Flushes, 1)
+	if f.FlushTime > 0 {
+		time.Sleep(f.FlushTime)
+	}
+	return nil
+}
+
 // Scripted is a net.Conn whose read side is a fixed byte string delivered with a read schedule and
 // whose write side is recorded and otherwise ignored.
 type Scripted struct {
